@@ -171,6 +171,26 @@ class _Spell(ast.NodeTransformer):
         if isinstance(f, ast.Attribute) and f.attr == "diagonal" and not n.args and not n.keywords and "diagonal" in self.np:
             self.k += 1
             return ast.copy_location(ast.Call(func=ast.Name(id="diagonal", ctx=ast.Load()), args=[f.value], keywords=[]), n)
+        # minimize_scalar(fun=F, ..) / minimize(fun=F, ..): the objective written first, as the repository does
+        if isinstance(f, ast.Name) and f.id in ("minimize_scalar", "minimize", "differential_evolution", "fmin_l_bfgs_b") and not n.args:
+            kw = [k_ for k_ in n.keywords if k_.arg in ("fun", "func")]
+            if len(kw) == 1:
+                self.k += 1
+                n.args = [kw[0].value]
+                n.keywords = [k_ for k_ in n.keywords if k_ is not kw[0]]
+                return n
+        # set(A).isdisjoint(B) -> not any(j in A for j in B)
+        if isinstance(f, ast.Attribute) and f.attr == "isdisjoint" and len(n.args) == 1 and not n.keywords and isinstance(f.value, ast.Call) \
+                and isinstance(f.value.func, ast.Name) and f.value.func.id in ("set", "frozenset") and len(f.value.args) == 1:
+            self.k += 1
+            A, B = f.value.args[0], n.args[0]
+            gen = ast.GeneratorExp(elt=ast.Compare(left=ast.Name(id="j__", ctx=ast.Load()), ops=[ast.In()], comparators=[A]),
+                                   generators=[ast.comprehension(target=ast.Name(id="j__", ctx=ast.Store()), iter=B, ifs=[], is_async=0)])
+            return ast.copy_location(ast.UnaryOp(op=ast.Not(), operand=ast.Call(func=ast.Name(id="any", ctx=ast.Load()), args=[gen], keywords=[])), n)
+        # X.searchsorted(v) -> searchsorted(X, v)
+        if isinstance(f, ast.Attribute) and f.attr == "searchsorted" and n.args and not (isinstance(f.value, ast.Name) and f.value.id in ("np", "numpy")):
+            self.k += 1
+            return ast.copy_location(ast.Call(func=ast.Name(id="searchsorted", ctx=ast.Load()), args=[f.value] + n.args, keywords=n.keywords), n)
         if isinstance(f, ast.Attribute) and f.attr == "dot" and len(n.args) == 1 and not n.keywords \
                 and not (isinstance(f.value, ast.Name) and f.value.id in ("np", "numpy")):
             self.k += 1
@@ -474,6 +494,391 @@ def _inline_predicates(tree):
     return k
 
 
+def _uses(node, name):
+    return any(isinstance(x, ast.Name) and x.id == name for x in ast.walk(node))
+
+
+def _len_of(e):
+    """X when e is len(X) / X.shape[0]; else None"""
+    if isinstance(e, ast.Call) and isinstance(e.func, ast.Name) and e.func.id == "len" and len(e.args) == 1 and not e.keywords:
+        return e.args[0]
+    if isinstance(e, ast.Subscript) and isinstance(e.value, ast.Attribute) and e.value.attr == "shape" \
+            and isinstance(e.slice, ast.Constant) and e.slice.value == 0:
+        return e.value.value
+    return None
+
+
+def _plain_seq(e):
+    return isinstance(e, ast.Name) or (isinstance(e, ast.Attribute) and _plain_seq(e.value))
+
+
+def _index_loops(tree):
+    """`for i in range(len(S)): p = S[i]; <rest>` (p bound nowhere else in the loop, S not stored to) is
+    `for i, p in enumerate(S): <rest>`; `[f(S[k]) for k in range(len(S))]` with k used only as `S[k]` is `[f(t) for t in S]`."""
+    k = 0
+    for st in ast.walk(tree):
+        if isinstance(st, ast.For) and isinstance(st.target, ast.Name) and isinstance(st.iter, ast.Call) and isinstance(st.iter.func, ast.Name) \
+                and st.iter.func.id == "range" and len(st.iter.args) == 1 and not st.orelse and len(st.body) >= 2:
+            S = _len_of(st.iter.args[0])
+            if S is None or not _plain_seq(S):
+                continue
+            iname = st.target.id
+            # leading run of `p = <seq>[i]` statements; the first sequence must be the one whose length bounds the loop
+            lead = []
+            for f in st.body:
+                if isinstance(f, ast.Assign) and len(f.targets) == 1 and isinstance(f.targets[0], ast.Name) and isinstance(f.value, ast.Subscript) \
+                        and _plain_seq(f.value.value) and isinstance(f.value.slice, ast.Name) and f.value.slice.id == iname:
+                    lead.append(f)
+                else:
+                    break
+            if not lead or len(lead) == len(st.body) or not any(ast.dump(f.value.value) == ast.dump(S) for f in lead):
+                continue
+            lead.sort(key=lambda f: ast.dump(f.value.value) != ast.dump(S))       # stable: the bounding sequence first
+            names = [f.targets[0].id for f in lead]
+            if len(set(names)) != len(names):
+                continue
+            rest = st.body[len(lead):]
+            rebinds = any(isinstance(x, ast.Name) and isinstance(x.ctx, ast.Store) and x.id in names + [iname] for b in rest for x in ast.walk(b))
+            seqs = [ast.unparse(f.value.value) for f in lead]
+            stores_S = any(isinstance(x, (ast.Attribute, ast.Name, ast.Subscript)) and isinstance(x.ctx, ast.Store) and
+                           any(ast.unparse(x).startswith(q) for q in seqs) for b in rest for x in ast.walk(b))
+            if rebinds or stores_S:
+                continue
+            if len(lead) == 1:
+                elem, it = ast.Name(id=names[0], ctx=ast.Store()), lead[0].value.value
+            else:
+                elem = ast.Tuple(elts=[ast.Name(id=n_, ctx=ast.Store()) for n_ in names], ctx=ast.Store())
+                it = ast.Call(func=ast.Name(id="zip", ctx=ast.Load()), args=[f.value.value for f in lead], keywords=[])
+            if any(_uses(b, iname) for b in rest):
+                st.target = ast.Tuple(elts=[ast.Name(id=iname, ctx=ast.Store()), elem], ctx=ast.Store())
+                st.iter = ast.Call(func=ast.Name(id="enumerate", ctx=ast.Load()), args=[it], keywords=[])
+            else:
+                st.target, st.iter = elem, it
+            st.body = rest
+            k += 1
+    import copy
+    # name -> dump of N for locals bound exactly once, to an array of exactly N cells, with N a name never re-bound in that function
+    facts = {}
+    for fn in ast.walk(tree):
+        if not isinstance(fn, ast.FunctionDef):
+            continue
+        binds = {}
+        for st_ in ast.walk(fn):
+            for t_ in (st_.targets if isinstance(st_, ast.Assign) else [st_.target] if isinstance(st_, (ast.AugAssign, ast.For)) else []):
+                for x in ast.walk(t_):
+                    if isinstance(x, ast.Name):
+                        binds.setdefault(x.id, []).append(st_)
+        for nm, sts in binds.items():
+            if len(sts) != 1 or not isinstance(sts[0], ast.Assign) or not isinstance(sts[0].value, ast.Call):
+                continue
+            c_ = sts[0].value
+            fnm = c_.func.id if isinstance(c_.func, ast.Name) else None
+            N = None
+            if fnm == "linspace" and len(c_.args) == 3 and not c_.keywords:
+                N = c_.args[2]
+            elif fnm == "linspace" and len(c_.args) == 2 and [k_.arg for k_ in c_.keywords] == ["num"]:
+                N = c_.keywords[0].value
+            elif fnm in ("zeros", "ones", "empty", "arange") and len(c_.args) == 1 and not c_.keywords:
+                N = c_.args[0]
+            if isinstance(N, ast.Name) and N.id not in binds:
+                facts[(id(fn), nm)] = ast.dump(N)
+    owner = {}
+    for fn in ast.walk(tree):
+        if isinstance(fn, ast.FunctionDef):
+            for x in ast.walk(fn):
+                if isinstance(x, (ast.ListComp, ast.GeneratorExp)):
+                    owner[id(x)] = id(fn)          # the innermost function wins (walked last)
+    for lc in ast.walk(tree):
+        if isinstance(lc, (ast.ListComp, ast.GeneratorExp)) and len(lc.generators) == 1:
+            g = lc.generators[0]
+            if not (isinstance(g.target, ast.Name) and not g.ifs and isinstance(g.iter, ast.Call) and isinstance(g.iter.func, ast.Name)
+                    and g.iter.func.id == "range" and len(g.iter.args) == 1 and not g.iter.keywords):
+                continue
+            S = _len_of(g.iter.args[0])
+            if S is None:
+                # `range(N)` where a local sequence was built with exactly N cells (`x = linspace(a, b, N)`) and is walked by index
+                cands = [x.value for x in ast.walk(lc.elt) if isinstance(x, ast.Subscript) and isinstance(x.value, ast.Name)
+                         and isinstance(x.slice, ast.Name) and x.slice.id == g.target.id]
+                for c_ in cands:
+                    if facts.get((owner.get(id(lc)), c_.id)) == ast.dump(g.iter.args[0]):
+                        S = c_
+                        break
+            if S is None or not _plain_seq(S):
+                continue
+            kn = g.target.id
+            uses = [x for x in ast.walk(lc.elt) if isinstance(x, ast.Name) and x.id == kn]
+            subs = [x for x in ast.walk(lc.elt) if isinstance(x, ast.Subscript) and ast.dump(x.value) == ast.dump(S)
+                    and isinstance(x.slice, ast.Name) and x.slice.id == kn]
+            if not uses or len(uses) != len(subs):
+                continue
+            fresh = kn + "_el"
+            if _uses(lc.elt, fresh):
+                continue
+
+            class Sub(ast.NodeTransformer):
+                def visit_Subscript(self, n):
+                    if any(n is x for x in subs):
+                        return ast.copy_location(ast.Name(id=fresh, ctx=ast.Load()), n)
+                    return self.generic_visit(n)
+            lc.elt = Sub().visit(lc.elt)
+            g.target = ast.Name(id=fresh, ctx=ast.Store())
+            g.iter = copy.deepcopy(S)
+            k += 1
+    return k
+
+
+def _fill_loops(tree):
+    """`X = zeros(len(S)); for i, p in enumerate(S): X[i] = E` (the loop's only statement, E not reading X) is
+    `X = array([E for i, p in enumerate(S)])`: every cell is written once, in order."""
+    k = 0
+    for node in ast.walk(tree):
+        for nm in ("body", "orelse"):
+            blk = getattr(node, nm, None)
+            if not (isinstance(blk, list) and blk and isinstance(blk[0], ast.stmt)):
+                continue
+            i = 0
+            while i + 1 < len(blk):
+                a, lp = blk[i], blk[i + 1]
+                i += 1
+                if not (isinstance(a, ast.Assign) and len(a.targets) == 1 and isinstance(a.targets[0], ast.Name) and isinstance(a.value, ast.Call)
+                        and isinstance(a.value.func, ast.Name) and a.value.func.id in ("zeros", "empty") and len(a.value.args) == 1
+                        and not a.value.keywords):
+                    continue
+                X = a.targets[0].id
+                S = _len_of(a.value.args[0])
+                if S is None or not isinstance(lp, ast.For) or lp.orelse or len(lp.body) != 1:
+                    continue
+                if not (isinstance(lp.iter, ast.Call) and isinstance(lp.iter.func, ast.Name) and lp.iter.func.id == "enumerate"
+                        and len(lp.iter.args) == 1 and ast.dump(lp.iter.args[0]) == ast.dump(S) and isinstance(lp.target, ast.Tuple)
+                        and len(lp.target.elts) == 2 and isinstance(lp.target.elts[0], ast.Name)):
+                    continue
+                b = lp.body[0]
+                if not (isinstance(b, ast.Assign) and len(b.targets) == 1 and isinstance(b.targets[0], ast.Subscript)
+                        and isinstance(b.targets[0].value, ast.Name) and b.targets[0].value.id == X
+                        and isinstance(b.targets[0].slice, ast.Name) and b.targets[0].slice.id == lp.target.elts[0].id
+                        and not _uses(b.value, X)):
+                    continue
+                tgt, itr = lp.target, lp.iter
+                if not _uses(b.value, lp.target.elts[0].id):
+                    tgt, itr = lp.target.elts[1], lp.iter.args[0]       # the index is not needed
+                comp = ast.ListComp(elt=b.value, generators=[ast.comprehension(target=tgt, iter=itr, ifs=[], is_async=0)])
+                new = ast.Assign(targets=[ast.Name(id=X, ctx=ast.Store())],
+                                 value=ast.Call(func=ast.Name(id="array", ctx=ast.Load()), args=[comp], keywords=[]))
+                ast.copy_location(new, a)
+                blk[i - 1:i + 1] = [new]
+                k += 1
+    return k
+
+
+def _explicit_base_calls(tree):
+    """Inside a method of `class C(B)` (one base): `B.m(self, a, ..)` is `super().m(a, ..)`."""
+    k = 0
+    for cls in ast.walk(tree):
+        if not (isinstance(cls, ast.ClassDef) and len(cls.bases) == 1 and isinstance(cls.bases[0], ast.Name)):
+            continue
+        base = cls.bases[0].id
+        for fn in cls.body:
+            if not (isinstance(fn, ast.FunctionDef) and fn.args.args and not any(isinstance(d, ast.Name) and d.id in ("staticmethod", "classmethod")
+                                                                                 for d in fn.decorator_list)):
+                continue
+            sn = fn.args.args[0].arg
+            for c in ast.walk(fn):
+                if isinstance(c, ast.Call) and isinstance(c.func, ast.Attribute) and isinstance(c.func.value, ast.Name) and c.func.value.id == base \
+                        and c.args and isinstance(c.args[0], ast.Name) and c.args[0].id == sn:
+                    c.func.value = ast.copy_location(ast.Call(func=ast.Name(id="super", ctx=ast.Load()), args=[], keywords=[]), c.func.value)
+                    c.args = c.args[1:]
+                    k += 1
+    return k
+
+
+def _immutable_literal(e):
+    if isinstance(e, ast.Constant):
+        return True
+    if isinstance(e, ast.Tuple):
+        return all(_immutable_literal(x) for x in e.elts)
+    if isinstance(e, ast.UnaryOp) and isinstance(e.op, ast.USub):
+        return _immutable_literal(e.operand)
+    return False
+
+
+def _repeat_comprehensions(tree):
+    """`[C for _ in range(N)]` with C an immutable literal is `[C] * N`."""
+    k = 0
+
+    class T(ast.NodeTransformer):
+        def visit_ListComp(self, n):
+            nonlocal k
+            self.generic_visit(n)
+            if len(n.generators) == 1 and not n.generators[0].ifs and _immutable_literal(n.elt):
+                g = n.generators[0]
+                if isinstance(g.iter, ast.Call) and isinstance(g.iter.func, ast.Name) and g.iter.func.id == "range" and len(g.iter.args) == 1 \
+                        and not g.iter.keywords:
+                    k += 1
+                    return ast.copy_location(ast.BinOp(left=ast.List(elts=[n.elt], ctx=ast.Load()), op=ast.Mult(), right=g.iter.args[0]), n)
+            return n
+    T().visit(tree)
+    return k
+
+
+def _fresh_array(e):
+    """The expression certainly builds a new array (nothing else refers to its buffer)."""
+    if isinstance(e, ast.Call):
+        f = e.func
+        kws = {k.arg for k in e.keywords}
+        if isinstance(f, ast.Attribute) and f.attr in ("flatten", "copy") and not kws:
+            return True
+        if isinstance(f, ast.Name) and f.id in ("array", "concatenate", "sort", "sorted", "zeros", "ones", "linspace", "arange", "stack",
+                                               "hstack", "vstack", "append") and not ({"copy", "out"} & kws):
+            return True
+    if isinstance(e, ast.BinOp):
+        return True
+    return False
+
+
+def _sort_after_bind(tree):
+    """`X = <fresh array>; X.sort()` is `X = sort(<fresh array>)` (same for an attribute X): nothing else can see the buffer."""
+    k = 0
+    for node in ast.walk(tree):
+        for nm in ("body", "orelse"):
+            blk = getattr(node, nm, None)
+            if not (isinstance(blk, list) and blk and isinstance(blk[0], ast.stmt)):
+                continue
+            i = 0
+            while i + 1 < len(blk):
+                a, b = blk[i], blk[i + 1]
+                i += 1
+                if not (isinstance(a, ast.Assign) and len(a.targets) == 1 and isinstance(a.targets[0], (ast.Name, ast.Attribute)) and _fresh_array(a.value)):
+                    continue
+                if not (isinstance(b, ast.Expr) and isinstance(b.value, ast.Call) and isinstance(b.value.func, ast.Attribute) and b.value.func.attr == "sort"
+                        and not b.value.args and not b.value.keywords):
+                    continue
+                t = a.targets[0]
+                r = b.value.func.value
+                same = (isinstance(t, ast.Name) and isinstance(r, ast.Name) and t.id == r.id) or \
+                    (isinstance(t, ast.Attribute) and isinstance(r, ast.Attribute) and ast.unparse(t) == ast.unparse(r))
+                if not same:
+                    continue
+                a.value = ast.copy_location(ast.Call(func=ast.Name(id="sort", ctx=ast.Load()), args=[a.value], keywords=[]), a.value)
+                del blk[i]
+                k += 1
+    return k
+
+
+def _trivial_overrides(tree):
+    """A method whose whole body is `return super().m(<its own parameters, in order>)` (no defaults of its own, no decorators) adds
+    nothing to the inherited one: it is dropped."""
+    k = 0
+    for cls in ast.walk(tree):
+        if not isinstance(cls, ast.ClassDef) or not cls.bases:
+            continue
+        keep = []
+        for fn in cls.body:
+            drop = False
+            if isinstance(fn, ast.FunctionDef) and not fn.decorator_list and fn.args.args and not fn.args.defaults and not fn.args.vararg \
+                    and not fn.args.kwarg and not fn.args.kwonlyargs:
+                body = [st for st in fn.body if not (isinstance(st, ast.Expr) and isinstance(st.value, ast.Constant))]
+                if len(body) == 1 and isinstance(body[0], (ast.Return, ast.Expr)) and isinstance(body[0].value, ast.Call):
+                    c = body[0].value
+                    f = c.func
+                    if isinstance(f, ast.Attribute) and f.attr == fn.name and isinstance(f.value, ast.Call) and isinstance(f.value.func, ast.Name) \
+                            and f.value.func.id == "super" and not f.value.args:
+                        names = [a.arg for a in fn.args.args[1:]]
+                        given = [a.id if isinstance(a, ast.Name) else None for a in c.args] + \
+                                [kw.value.id if isinstance(kw.value, ast.Name) and kw.arg == kw.value.id else None for kw in c.keywords]
+                        if given == names and (isinstance(body[0], ast.Return) or fn.name == "__init__"):
+                            drop = True
+            if drop:
+                k += 1
+            else:
+                keep.append(fn)
+        if len(keep) != len(cls.body):
+            cls.body = keep or [ast.Pass()]
+    return k
+
+
+def _merge_store_aug(tree):
+    """`T[i] = E` followed at once by `T[i] op= F` (F not reading T) is `T[i] = E op F`: the cell is written with the final value."""
+    k = 0
+    for node in ast.walk(tree):
+        for nm in ("body", "orelse"):
+            blk = getattr(node, nm, None)
+            if not (isinstance(blk, list) and blk and isinstance(blk[0], ast.stmt)):
+                continue
+            i = 0
+            while i + 1 < len(blk):
+                a, b = blk[i], blk[i + 1]
+                i += 1
+                if isinstance(a, ast.Assign) and len(a.targets) == 1 and isinstance(a.targets[0], ast.Subscript) and isinstance(b, ast.AugAssign) \
+                        and isinstance(b.target, ast.Subscript) and ast.unparse(a.targets[0]) == ast.unparse(b.target) \
+                        and isinstance(a.targets[0].value, ast.Name) and not _uses(b.value, a.targets[0].value.id):
+                    a.value = ast.copy_location(ast.BinOp(left=a.value, op=b.op, right=b.value), a.value)
+                    del blk[i]
+                    k += 1
+    return k
+
+
+def _unroll_literal_comprehensions(tree):
+    """`{f"{i}{name}": getattr(self, name) for name in NAMES}` with NAMES a literal tuple of strings (written in place, or a local
+    bound once to one) is the dict written out, `getattr(x, "a")` read as `x.a` and constant pieces of f-strings merged."""
+    import copy
+    k = 0
+
+    def literal_names(e, fn):
+        if isinstance(e, (ast.Tuple, ast.List)) and e.elts and all(isinstance(x, ast.Constant) and isinstance(x.value, str) for x in e.elts):
+            return [x.value for x in e.elts]
+        if isinstance(e, ast.Name) and fn is not None:
+            sites = [st for st in ast.walk(fn) if isinstance(st, (ast.Assign, ast.AugAssign, ast.For)) and
+                     any(isinstance(x, ast.Name) and x.id == e.id for t in (st.targets if isinstance(st, ast.Assign) else [st.target]) for x in ast.walk(t))]
+            if len(sites) == 1 and isinstance(sites[0], ast.Assign) and len(sites[0].targets) == 1 and isinstance(sites[0].targets[0], ast.Name):
+                return literal_names(sites[0].value, None)
+        return None
+
+    class Fold(ast.NodeTransformer):
+        def visit_Call(self, n):
+            self.generic_visit(n)
+            if isinstance(n.func, ast.Name) and n.func.id == "getattr" and len(n.args) == 2 and not n.keywords \
+                    and isinstance(n.args[1], ast.Constant) and isinstance(n.args[1].value, str) and n.args[1].value.isidentifier():
+                return ast.copy_location(ast.Attribute(value=n.args[0], attr=n.args[1].value, ctx=ast.Load()), n)
+            return n
+
+        def visit_JoinedStr(self, n):
+            self.generic_visit(n)
+            vals = []
+            for v in n.values:
+                if isinstance(v, ast.FormattedValue) and isinstance(v.value, ast.Constant) and isinstance(v.value.value, str) \
+                        and v.conversion == -1 and v.format_spec is None:
+                    v = ast.Constant(value=v.value.value)
+                if isinstance(v, ast.Constant) and vals and isinstance(vals[-1], ast.Constant):
+                    vals[-1] = ast.Constant(value=vals[-1].value + v.value)
+                else:
+                    vals.append(v)
+            n.values = vals
+            return n
+
+    for fn in [f for f in ast.walk(tree) if isinstance(f, ast.FunctionDef)]:
+        class T(ast.NodeTransformer):
+            def visit_DictComp(self, n):
+                nonlocal k
+                self.generic_visit(n)
+                if len(n.generators) != 1 or n.generators[0].ifs or not isinstance(n.generators[0].target, ast.Name):
+                    return n
+                names = literal_names(n.generators[0].iter, fn)
+                if names is None or len(names) > 64 or len(set(names)) != len(names):
+                    return n
+                var = n.generators[0].target.id
+                keys, vals = [], []
+                for nm in names:
+                    class Sub(ast.NodeTransformer):
+                        def visit_Name(self, x):
+                            return ast.copy_location(ast.Constant(value=nm), x) if x.id == var and isinstance(x.ctx, ast.Load) else x
+                    keys.append(Fold().visit(Sub().visit(copy.deepcopy(n.key))))
+                    vals.append(Fold().visit(Sub().visit(copy.deepcopy(n.value))))
+                k += 1
+                return ast.copy_location(ast.Dict(keys=keys, values=vals), n)
+        T().visit(fn)
+    return k
+
+
 def respell(tree):
     np_names = {}
     for st in tree.body:
@@ -491,7 +896,15 @@ def respell(tree):
     n += _getattr_guard(tree)
     n += _unstar_zip(tree)
     n += _split_tuple_assignments(tree)
+    n += _explicit_base_calls(tree)
+    n += _trivial_overrides(tree)
+    n += _repeat_comprehensions(tree)
+    n += _sort_after_bind(tree)
+    n += _merge_store_aug(tree)
+    n += _unroll_literal_comprehensions(tree)
     n += _inline_predicates(tree)
+    n += _index_loops(tree)
+    n += _fill_loops(tree)
     n += _keywordise_self_calls(tree)
     if n:
         ast.fix_missing_locations(tree)
